@@ -323,6 +323,12 @@ def generate(seed, profile_name, faulty=None):
               'via': R.choice(['MosFile', 'MosFile', 'cls']), 'twin_lag': R.choice(lags)}
         if why:
             st['channel'] = why
+        if faulty and P.get('foreign_rate', 0.03) and R.random() < P.get('foreign_rate', 0.03) \
+                and op['type'] not in ('ROReplace', 'Raw') and not op.get('malformed'):
+            # mis-filed: addressed to another running order but delivered to this one
+            op['ro_id'] = g.ro_id + '/other'
+            op['foreign'] = True
+            st['channel'] = 'foreign' 
         if op['type'] == 'Raw':
             st['merge'] = False
             st['via'] = 'MosFile'
